@@ -42,11 +42,14 @@ structure Res where
   /-- indices (into the observation array) whose deviation from the spec is attributed to `kf`;
   empty = the whole case. -/
   kfi : List Nat := []
+  /-- per-index attribution (index ↦ class) when one case touches several recorded findings. -/
+  kfm : List (Nat × String) := []
 
 def Res.toJson (id : Nat) (r : Res) : Json :=
   Json.mkObj <|
     [("id", jNat id), ("m", r.m), ("nt", Json.bool r.nt)]
     ++ (match r.s with | some s => [("s", s)] | none => [])
     ++ (match r.kf with | some s => [("kf", Json.str s), ("kfi", jNats r.kfi)] | none => [])
+    ++ (if r.kfm.isEmpty then [] else [("kfm", Json.arr (r.kfm.map fun (i, c) => Json.arr #[jNat i, Json.str c]).toArray)])
 
 end Hub.Drv
